@@ -978,43 +978,236 @@ Lemma case_local : forall s t th', Inv s -> t < s_n s ->
   holds (t_pc th') = false -> holds (t_pc (s_thr s t)) = false ->
   wholds (t_pc th') = false -> wholds (t_pc (s_thr s t)) = false ->
   tagged (t_pc th') = false -> valdef (t_pc th') = false -> selfdef (t_pc th') = false -> creating (t_pc th') = false ->
-  t_exc (s_thr s t) = None ->
+  t_exc (s_thr s t) = None -> cullpc (t_pc th') = false ->
   Inv (put_thr s t th').
 Proof.
-  intros s t th' Hinv Ht Hs Hv Hse Hc Ha Hi He H1 H2 H3 H4 H5 H6 H7 H8 H9.
+  intros s t th' Hinv Ht Hs Hv Hse Hc Ha Hi He H1 H2 H3 H4 H5 H6 H7 H8 H9 H10.
   destruct (inv_w_thr s Hinv t Ht) as (Rv & Rs & Rl).
   assert (Nsab : sabs (t_pc th') = false) by (destruct (t_pc th'); simpl in *; try discriminate; reflexivity).
   assert (Nwab : wabs (t_pc th') = false) by (destruct (t_pc th'); simpl in *; try discriminate; reflexivity).
-  eapply inv_thr_step with (s := s) (t := t) (new := None); try reflexivity; try assumption.
-  - apply lc_same; [reflexivity | congruence].
-  - apply le_n.
-  - intros o _. reflexivity.
-  - apply wc_same; [reflexivity |]. intros o _. unfold wl. rewrite H3, H4. split; intros (A & _); discriminate.
-  - intros o A B. simpl in B. lia.
-  - now rewrite Hv.
-  - now rewrite Hse.
-  - rewrite Hs. exact Rl.
-  - rewrite Hc. exact (inv_w_cobj s Hinv t Ht).
-  - apply cull_ok_none. destruct (t_pc th'); simpl in *; try discriminate; reflexivity.
-  - congruence.
-  - congruence.
-  - congruence.
-  - rewrite H6, H5. discriminate.
-  - congruence.
-  - congruence.
-  - left. congruence.
-  - rewrite Hs. intros x X. exact (inv_noexc s Hinv t x Ht X).
-  - reflexivity.
-  - rewrite Ha, Hi. intros o X. exact (inv_w_all s Hinv t o Ht X).
-  - apply iter_ok_none. destruct (t_pc th'); simpl in *; try discriminate; reflexivity.
-  - intros X. exfalso. destruct (t_pc (s_thr s t)); simpl in *; discriminate.
-  - left. unfold mov_of. destruct (t_pc th') eqn:E1; simpl in *; try discriminate;
-      destruct (t_pc (s_thr s t)) eqn:E2; simpl in *; try discriminate; reflexivity.
-  - intros i o e X. eapply hold_th_nontagged; eauto.
-  - discriminate.
-  - discriminate.
-  - intros o X. exfalso. rewrite X in H1. discriminate.
-  - intros k X. exfalso. apply deadw_holds in X. congruence.
+  eapply inv_thr_step with (s := s) (t := t) (new := None); try reflexivity; try assumption;
+  lazymatch goal with
+  | |- lock_change _ _ _ _ => apply lc_same; [reflexivity | congruence]
+  | |- _ <= _ => apply le_n
+  | |- keys_kept _ _ => intros o _; reflexivity
+  | |- wlock_change _ _ _ _ =>
+      apply wc_same; [reflexivity |]; intros o _; unfold wl; rewrite H3, H4; split; intros (A & _); discriminate
+  | |- fresh_unlocked _ _ _ => intros o A B; simpl in B; lia
+  | |- ref_ok _ (t_val _) => rewrite Hv; exact Rv
+  | |- ref_ok _ (t_self _) => rewrite Hse; exact Rs
+  | |- ref_ok _ (t_cobj _) => rewrite Hc; exact (inv_w_cobj s Hinv t Ht)
+  | |- forall o i e, In (RObj o i e) _ -> _ => rewrite Hs; exact Rl
+  | |- cull_ok _ _ _ _ => apply cull_ok_none; exact H10
+  | |- iter_ok _ _ _ _ _ => apply iter_ok_none; destruct (t_pc th'); simpl in *; try discriminate; reflexivity
+  | |- sabs _ = true -> _ => congruence
+  | |- wabs _ = true -> _ => congruence
+  | |- valdef _ = true -> _ => congruence
+  | |- forall o, (valdef _ || tagged _) = true -> _ => rewrite H6, H5; discriminate
+  | |- forall o, creating _ = true -> _ => congruence
+  | |- selfdef _ = true -> _ => congruence
+  | |- exc_ok _ => left; congruence
+  | |- forall x, In (RExc x) _ -> _ => rewrite Hs; intros x X; exact (inv_noexc s Hinv t x Ht X)
+  | |- forall o, In o (t_all _) \/ _ -> _ => rewrite Ha, Hi; intros o X; exact (inv_w_all s Hinv t o Ht X)
+  | |- xwinpc _ = true -> _ => intros X; exfalso; destruct (t_pc (s_thr s t)); simpl in *; discriminate
+  | |- mov_of _ = mov_of _ \/ _ =>
+      left; unfold mov_of; destruct (t_pc th') eqn:E1; simpl in *; try discriminate;
+      destruct (t_pc (s_thr s t)) eqn:E2; simpl in *; try discriminate; reflexivity
+  | |- forall i o e, hold_th _ i o e -> _ => intros i o e X; exact (hold_th_nontagged (s_thr s t) th' i o e X Hs H5)
+  | |- forall i0 o0 e0, None = Some _ -> _ => discriminate
+  | |- forall o, t_pc _ = F121 -> _ => intros o X; exfalso; rewrite X in H1; discriminate
+  | |- forall k, deadw _ = Some k -> _ => intros k X; exfalso; apply deadw_holds in X; congruence
+  | |- _ => idtac
+  end.
+Qed.
+
+
+(* ------------------------------------------------------------------ sqlmeta.expireAll, getAll *)
+Lemma case_finish_none : forall s t, Inv s -> t < s_n s ->
+  holds (t_pc (s_thr s t)) = false -> wholds (t_pc (s_thr s t)) = false -> mov_of (s_thr s t) = None ->
+  Inv (put_thr s t (finish (s_thr s t) RNone)).
+Proof.
+  intros s t Hinv Ht H1 H2 H3.
+  eapply inv_finish with (s := s) (t := t); try reflexivity; try assumption.
+  - intros o1 _. reflexivity.
+  - apply lc_same; [reflexivity | simpl; now rewrite H1].
+  - apply wc_same; [reflexivity |]. intros o1 _. unfold wl. simpl. rewrite H2.
+    split; intros (A & _); discriminate.
+  - destruct (t_pc (s_thr s t)); simpl in *; try discriminate; reflexivity.
+Qed.
+
+(* the loop of sqlmeta.expireAll takes its next item *)
+Lemma case_mex_item : forall s t th' x, Inv s -> t < s_n s ->
+  t_pc th' = Z683 -> t_self th' = Some x -> x < s_nextobj s ->
+  t_slots th' = t_slots (s_thr s t) -> ref_ok s (t_val th') -> ref_ok s (t_cobj th') ->
+  (forall o, In o (t_all th') \/ In o (t_items th') -> o < s_nextobj s) ->
+  t_exc th' = None ->
+  holds (t_pc (s_thr s t)) = false -> wholds (t_pc (s_thr s t)) = false -> mov_of (s_thr s t) = None ->
+  Inv (put_thr s t th').
+Proof.
+  intros s t th' x Hinv Ht Hp Hse Hx Hs Hv Hc Ha He H1 H2 H3.
+  destruct (inv_w_thr s Hinv t Ht) as (Rv & Rs & Rl).
+  eapply inv_thr_step with (s := s) (t := t) (new := None); try reflexivity; try assumption;
+  lazymatch goal with
+  | |- lock_change _ _ _ _ => apply lc_same; [reflexivity | rewrite Hp, H1; reflexivity]
+  | |- _ <= _ => apply le_n
+  | |- keys_kept _ _ => intros o _; reflexivity
+  | |- wlock_change _ _ _ _ =>
+      apply wc_same; [reflexivity |]; intros o _; unfold wl; rewrite Hp, H2; simpl; split; intros (A & _); discriminate
+  | |- fresh_unlocked _ _ _ => intros o A B; simpl in B; lia
+  | |- ref_ok _ (t_self _) => rewrite Hse; intros y E; injection E as <-; exact Hx
+  | |- forall o i e, In (RObj o i e) _ -> _ => rewrite Hs; exact Rl
+  | |- cull_ok _ _ _ _ => apply cull_ok_none; rewrite Hp; reflexivity
+  | |- iter_ok _ _ _ _ _ => apply iter_ok_none; rewrite Hp; reflexivity
+  | |- sabs _ = true -> _ => rewrite Hp; discriminate
+  | |- wabs _ = true -> _ => rewrite Hp; discriminate
+  | |- valdef _ = true -> _ => rewrite Hp; discriminate
+  | |- forall o, (valdef _ || tagged _) = true -> _ => rewrite Hp; discriminate
+  | |- forall o, creating _ = true -> _ => rewrite Hp; discriminate
+  | |- selfdef _ = true -> _ => rewrite Hse; discriminate
+  | |- exc_ok _ => left; exact He
+  | |- forall x, In (RExc x) _ -> _ => rewrite Hs; intros y X; exact (inv_noexc s Hinv t y Ht X)
+  | |- core_pc _ = true => reflexivity
+  | |- xwinpc _ = true -> _ => intros X; exfalso; destruct (t_pc (s_thr s t)); simpl in *; discriminate
+  | |- mov_of _ = mov_of _ \/ _ => left; rewrite H3; unfold mov_of; rewrite Hp; reflexivity
+  | |- forall i o e, hold_th _ i o e -> _ =>
+      intros i o e X; apply (hold_th_nontagged (s_thr s t) th' i o e X Hs); rewrite Hp; reflexivity
+  | |- forall i0 o0 e0, None = Some _ -> _ => discriminate
+  | |- forall o, t_pc _ = F121 -> _ => rewrite Hp; discriminate
+  | |- forall k, deadw _ = Some k -> _ => unfold deadw; rewrite Hp; discriminate
+  | |- _ => idtac
+  end.
+Qed.
+
+(* getAll line 276: all = list(self.cache.values()) *)
+Lemma case_L276 : forall s t, Inv s -> t < s_n s -> t_pc (s_thr s t) = L276 ->
+  Inv (put_thr s t (set_pc (set_iter (set_all (s_thr s t) (dvals (s_strong s))) None) L279)).
+Proof.
+  intros s t Hinv Ht Hpc.
+  eapply inv_thr_step with (s := s) (t := t) (new := None); try reflexivity; thr_obl s t Hinv Ht Hpc.
+  - simpl. intros o [X | X]; [| exact (inv_w_all s Hinv t o Ht (or_intror X))].
+    destruct (in_dvals _ _ X) as (j & k & Hn). eapply inv_w_strong; eauto.
+    eapply nth_dget; eauto. apply (inv_nodup_strong s Hinv).
+  - unfold iter_ok. simpl. repeat split; try discriminate.
+  - intros i o e H. exact (hold_th_nontagged (s_thr s t) _ i o e H eq_refl eq_refl).
+Qed.
+
+Lemma L279_iter : forall s t, Inv s -> t < s_n s -> t_pc (s_thr s t) = L279 ->
+  match t_iter (s_thr s t) with
+  | None => True
+  | Some (pos, size, ver) => size = length (s_weak s) /\ ver = s_wver s
+  end.
+Proof.
+  intros s t Hinv Ht Hpc. destruct (iter_parts s t Hinv Ht) as (_ & _ & _ & I4 & _).
+  specialize (I4 (or_introl Hpc)). destruct (t_iter (s_thr s t)) as [[[p sz] v] |]; auto.
+Qed.
+
+Lemma L279_no_error : forall s t, Inv s -> t < s_n s -> t_pc (s_thr s t) = L279 ->
+  exists r, iter_next (t_iter (s_thr s t)) (length (s_weak s)) (s_wver s) = Some r /\ r <> inr true.
+Proof.
+  intros s t Hinv Ht Hpc. pose proof (L279_iter s t Hinv Ht Hpc) as I.
+  unfold iter_next. destruct (t_iter (s_thr s t)) as [[[p sz] v] |].
+  - destruct I as (-> & ->). rewrite !Nat.eqb_refl. simpl.
+    destruct (Nat.ltb p (length (s_weak s))); eexists; split; try reflexivity; discriminate.
+  - destruct (Nat.ltb 0 (length (s_weak s))); eexists; split; try reflexivity; discriminate.
+Qed.
+
+(* line 279: for value in self.expiredCache.values() -- an item *)
+Lemma case_L279_item : forall s t pos k o, Inv s -> t < s_n s -> t_pc (s_thr s t) = L279 ->
+  iter_next (t_iter (s_thr s t)) (length (s_weak s)) (s_wver s) = Some (inl pos) ->
+  nth_error (s_weak s) pos = Some (k, o) ->
+  Inv (put_thr s t (set_pc (set_iter (set_cobj (s_thr s t) (Some o))
+                                     (iter_adv (t_iter (s_thr s t)) (length (s_weak s)) (s_wver s))) L280)).
+Proof.
+  intros s t pos k o Hinv Ht Hpc Hn Hnth. pose proof (L279_iter s t Hinv Ht Hpc) as I.
+  assert (Ho : o < s_nextobj s).
+  { eapply inv_w_weak; eauto. eapply nth_dget; eauto. apply (inv_nodup_weak s Hinv). }
+  eapply inv_thr_step with (s := s) (t := t) (new := None); try reflexivity; thr_obl s t Hinv Ht Hpc.
+  - unfold ref_ok. simpl. intros x E. injection E as <-. assumption.
+  - unfold iter_ok. simpl. repeat split; try discriminate.
+    intros _. unfold iter_adv. destruct (t_iter (s_thr s t)) as [[[p sz] v] |]; [exact I | auto].
+  - intros i o1 e H. exact (hold_th_nontagged (s_thr s t) _ i o1 e H eq_refl eq_refl).
+Qed.
+
+Lemma case_L279_end : forall s t, Inv s -> t < s_n s -> t_pc (s_thr s t) = L279 ->
+  Inv (put_thr s t (set_pc (set_iter (s_thr s t) None) L283)).
+Proof.
+  intros s t Hinv Ht Hpc.
+  eapply inv_thr_step with (s := s) (t := t) (new := None); try reflexivity; thr_obl s t Hinv Ht Hpc.
+  intros i o1 e H. exact (hold_th_nontagged (s_thr s t) _ i o1 e H eq_refl eq_refl).
+Qed.
+
+(* line 280: obj = value() *)
+Lemma case_L280 : forall s t o, Inv s -> t < s_n s -> t_pc (s_thr s t) = L280 ->
+  t_cobj (s_thr s t) = Some o ->
+  Inv (put_thr s t (set_pc (set_val (s_thr s t) (deref s o) (t_ep (s_thr s t))) L280n)).
+Proof.
+  intros s t o Hinv Ht Hpc Co.
+  destruct (iter_parts s t Hinv Ht) as (_ & _ & _ & I4 & _). specialize (I4 (or_intror (or_introl Hpc))).
+  eapply inv_thr_step with (s := s) (t := t) (new := None); try reflexivity; thr_obl s t Hinv Ht Hpc.
+  - unfold ref_ok. simpl. intros x E. unfold deref in E. destruct (aliveb s o); [| discriminate].
+    injection E as <-. apply (inv_w_cobj s Hinv t Ht). assumption.
+  - unfold iter_ok. simpl. repeat split; try discriminate. intros _.
+    destruct (t_iter (s_thr s t)) as [[[p sz] v] |]; [exact I4 | congruence].
+  - intros i o1 e H. exact (hold_th_nontagged (s_thr s t) _ i o1 e H eq_refl eq_refl).
+Qed.
+
+(* line 280n: if obj is not None *)
+Lemma case_L280n : forall s t, Inv s -> t < s_n s -> t_pc (s_thr s t) = L280n ->
+  Inv (put_thr s t (set_pc (s_thr s t) (match t_val (s_thr s t) with Some _ => L281 | None => L279 end))).
+Proof.
+  intros s t Hinv Ht Hpc.
+  destruct (iter_parts s t Hinv Ht) as (_ & _ & _ & I4 & _). specialize (I4 (or_intror (or_intror (or_introl Hpc)))).
+  assert (I5 : match t_iter (s_thr s t) with None => False | Some (pos, size, ver) => size = length (s_weak s) /\ ver = s_wver s end).
+  { destruct (t_iter (s_thr s t)) as [[[p sz] v] |]; [exact I4 | congruence]. }
+  destruct (t_val (s_thr s t)) eqn:V;
+    (eapply inv_thr_step with (s := s) (t := t) (new := None); try reflexivity; thr_obl s t Hinv Ht Hpc);
+    try (intros i o1 e H; exact (hold_th_nontagged (s_thr s t) _ i o1 e H eq_refl eq_refl));
+    (unfold iter_ok; simpl; repeat split; try discriminate; try congruence; try (intros _);
+     destruct (t_iter (s_thr s t)) as [[[p sz] v] |]; [exact I5 | contradiction]).
+Qed.
+
+(* line 281: all.append(obj) *)
+Lemma case_L281 : forall s t o, Inv s -> t < s_n s -> t_pc (s_thr s t) = L281 ->
+  t_val (s_thr s t) = Some o ->
+  Inv (put_thr s t (set_pc (set_all (s_thr s t) (t_all (s_thr s t) ++ [o])) L279)).
+Proof.
+  intros s t o Hinv Ht Hpc V.
+  destruct (iter_parts s t Hinv Ht) as (_ & _ & _ & I4 & _). specialize (I4 (or_intror (or_intror (or_intror Hpc)))).
+  destruct (inv_w_thr s Hinv t Ht) as (Rv & _).
+  eapply inv_thr_step with (s := s) (t := t) (new := None); try reflexivity; thr_obl s t Hinv Ht Hpc.
+  - simpl. intros o1 [X | X]; [| exact (inv_w_all s Hinv t o1 Ht (or_intror X))].
+    apply in_app_or in X. destruct X as [X | [<- | []]]; [exact (inv_w_all s Hinv t o1 Ht (or_introl X)) | now apply Rv].
+  - unfold iter_ok. simpl. repeat split; try discriminate.
+    intros _. destruct (t_iter (s_thr s t)) as [[[p sz] v] |]; [exact I4 | congruence].
+  - intros i o1 e H. exact (hold_th_nontagged (s_thr s t) _ i o1 e H eq_refl eq_refl).
+Qed.
+
+
+(* expire() returns into the loop of sqlmeta.expireAll *)
+Lemma case_X1070_expired_mex : forall s t, Inv s -> t < s_n s -> t_pc (s_thr s t) = X1070 ->
+  Inv (put_thr s t (set_pc (set_self (s_thr s t) None) Z682)).
+Proof.
+  intros s t Hinv Ht Hpc.
+  eapply inv_thr_step with (s := s) (t := t) (new := None); try reflexivity; thr_obl s t Hinv Ht Hpc.
+  - apply wc_same; [reflexivity |]. intros o _. unfold wl. simpl. rewrite Hpc. simpl. split; intros (A & _); discriminate.
+  - intros i o e H. exact (hold_th_nontagged (s_thr s t) _ i o e H eq_refl eq_refl).
+Qed.
+
+Lemma case_X1083_mex : forall s t, Inv s -> t < s_n s -> t_pc (s_thr s t) = X1083 ->
+  Inv (put_thr (with_heap s (set_obj_wlock (s_heap s) (self_of (s_thr s t)) None) (s_nextobj s)) t
+         (set_pc (set_self (s_thr s t) None) Z682)).
+Proof.
+  intros s t Hinv Ht Hpc.
+  destruct (self_some s t X1083 Hinv Ht Hpc eq_refl) as (o0 & So & Eo & Ho). rewrite Eo in *.
+  eapply inv_thr_step with (s := s) (t := t) (new := None); try reflexivity; thr_obl s t Hinv Ht Hpc.
+  - intros o _. simpl. unfold set_obj_wlock, upd. destruct (Nat.eqb o o0) eqn:E; [apply Nat.eqb_eq in E; subst |]; reflexivity.
+  - apply wc_release with (o0 := o0).
+    + unfold wl. rewrite Hpc. auto.
+    + simpl. unfold set_obj_wlock. now rewrite upd_same.
+    + intros o _ Hne. simpl. unfold set_obj_wlock. now rewrite upd_other.
+    + reflexivity.
+  - intros o Hge. simpl in *. unfold set_obj_wlock. rewrite upd_other by lia. reflexivity.
+  - intros i o e H. exact (hold_th_nontagged (s_thr s t) _ i o e H eq_refl eq_refl).
 Qed.
 
 (* ------------------------------------------------------------------ the step lemma *)
@@ -1031,9 +1224,8 @@ Proof.
   intros s t s' Hinv Hg Hstep. unfold step in Hstep.
   destruct (Nat.ltb t (s_n s)) eqn:Hlt; simpl in Hstep; [| discriminate].
   apply Nat.ltb_lt in Hlt.
-  destruct (inv_scope s Hinv t Hlt) as (Hcore & Hmex).
   unfold guard in Hg.
-  destruct (t_pc (s_thr s t)) eqn:Hpc; simpl in Hcore; try discriminate Hcore.
+  destruct (t_pc (s_thr s t)) eqn:Hpc.
   all: try (do_goto s Hinv t Hlt Hpc Hstep; fail).
   (* conditional gotos *)
   all: try (match type of Hstep with goto _ _ _ (if ?c then _ else _) = _ => destruct c eqn:Hc end;
@@ -1059,7 +1251,7 @@ Proof.
   all: lazymatch type of Hpc with
   | _ = Idle =>
     destruct (t_prog (s_thr s t)) as [| o r] eqn:Hprog; [discriminate |];
-    destruct o as [i | | t' k | | | t' k]; simpl in Hstep; try discriminate Hg;
+    destruct o as [i | | t' k | | | t' k]; simpl in Hstep;
     [ unfold goto in Hstep; inversion Hstep; subst; now apply case_start_get
     | do_goto s Hinv t Hlt Hpc Hstep
     | apply Nat.ltb_lt in Hg;
@@ -1069,6 +1261,8 @@ Proof.
       destruct (inv_w_thr s Hinv t' Hg) as (_ & _ & Rl); apply (Rl o i e);
       rewrite <- Hs; apply nth_In; destruct (Nat.lt_ge_cases k (length (t_slots (s_thr s t')))); [assumption |];
       rewrite nth_overflow in Hs by assumption; discriminate
+    | do_goto s Hinv t Hlt Hpc Hstep
+    | do_goto s Hinv t Hlt Hpc Hstep
     | apply Nat.eqb_eq in Hg; subst t'; rewrite Nat.eqb_refl in Hstep;
       destruct (nth k (t_slots (s_thr s t)) RNone); inversion Hstep; subst;
         first [now apply case_drop_own | now apply case_X1070_expired_idle] ]
@@ -1112,7 +1306,8 @@ Proof.
     rewrite L in Hstep; inversion Hstep; subst; now apply case_K181r
   | _ = X1070 =>
     destruct (o_expired (s_heap s (self_of (s_thr s t))));
-    [ unfold expire_return in Hstep; rewrite Hmex in Hstep; inversion Hstep; subst; now apply case_X1070_expired
+    [ unfold expire_return in Hstep; destruct (t_mex (s_thr s t)); unfold goto in Hstep; inversion Hstep; subst;
+      [ now apply case_X1070_expired_mex | now apply case_X1070_expired ]
     | do_goto s Hinv t Hlt Hpc Hstep ]
   | _ = X1072 =>
     destruct (o_wlock (s_heap s (self_of (s_thr s t)))) eqn:W; [discriminate |];
@@ -1124,8 +1319,9 @@ Proof.
   | _ = X1083 =>
     destruct (self_some s t X1083 Hinv Hlt Hpc eq_refl) as (o0 & So & Eo & Ho);
     assert (W : o_wlock (s_heap s o0) = Some t) by (apply (inv_wlock s Hinv t o0 Hlt Ho); rewrite Hpc; auto);
-    rewrite Eo in Hstep; rewrite W in Hstep; unfold expire_return in Hstep; rewrite Hmex in Hstep;
-    inversion Hstep; subst; now apply case_X1083
+    rewrite Eo in Hstep; rewrite W in Hstep; unfold expire_return in Hstep;
+    destruct (t_mex (s_thr s t)); unfold goto in Hstep; inversion Hstep; subst;
+    [ now apply case_X1083_mex | now apply case_X1083 ]
   (* ---- cull *)
   | _ = U195 => unfold goto in Hstep; inversion Hstep; subst; now apply case_U195
   | _ = U196 =>
@@ -1163,5 +1359,93 @@ Proof.
     unfold release in Hstep;
     assert (L : s_lock s = Some t) by (apply (inv_lock s Hinv t Hlt); rewrite Hpc; reflexivity);
     rewrite L in Hstep; inversion Hstep; subst; now apply case_U216
+  (* ---- the two expireAll *)
+  | _ = SW367 =>
+    destruct (s_present s);
+    [ do_goto s Hinv t Hlt Hpc Hstep
+    | unfold xall_return in Hstep; destruct (t_mex (s_thr s t));
+      [ do_goto s Hinv t Hlt Hpc Hstep
+      | inversion Hstep; subst; apply case_finish_none; try assumption; unfold mov_of; rewrite Hpc; reflexivity ] ]
+  | _ = A251 => unfold goto in Hstep; inversion Hstep; subst; now apply case_A251
+  | _ = A252 =>
+    destruct (A252_no_error s t Hinv Hlt Hpc) as (r & Er & Nr); rewrite Er in Hstep;
+    destruct r as [pos | b];
+    [ pose proof (iter_next_lt _ _ _ _ Er) as Hlen;
+      destruct (nth_error (s_strong s) pos) as [[k o] |] eqn:Hnth;
+      [ unfold goto in Hstep; inversion Hstep; subst; eapply case_A252_item; eauto
+      | exfalso; apply (nth_error_lt_some _ _ _ Hlen Hnth) ]
+    | destruct b; [congruence |]; unfold goto in Hstep; inversion Hstep; subst; now apply case_A252_end ]
+  | _ = A253 =>
+    destruct (iter_parts s t Hinv Hlt) as (_ & I2 & _); destruct (I2 Hpc) as (pos & sz & v & o & _ & _ & _ & _ & _ & V);
+    rewrite V in Hstep; unfold goto in Hstep; inversion Hstep; subst; now apply case_A253
+  | _ = A254 => unfold goto in Hstep; inversion Hstep; subst; now apply case_A254
+  | _ = A256 =>
+    assert (X : t_exc (s_thr s t) = None) by (apply exc_none; try assumption; rewrite Hpc; discriminate);
+    rewrite X in Hstep; unfold release in Hstep;
+    assert (L : s_lock s = Some t) by (apply (inv_lock s Hinv t Hlt); rewrite Hpc; reflexivity);
+    destruct (t_mex (s_thr s t)); rewrite L in Hstep; inversion Hstep; subst;
+    [ now apply case_A256_mex | now apply case_A256_op ]
+  | _ = Z681 =>
+    unfold goto in Hstep; inversion Hstep; subst;
+    apply case_local; try assumption; try reflexivity; try (rewrite Hpc; reflexivity);
+    apply exc_none; try assumption; rewrite Hpc; discriminate
+  | _ = Z682 =>
+    destruct (t_mexl (s_thr s t));
+    [ unfold mex_next in Hstep; destruct (t_items (s_thr s t)) as [| x r] eqn:Hit;
+      [ inversion Hstep; subst; apply case_finish_none; try assumption; try (rewrite Hpc; reflexivity);
+        unfold mov_of; rewrite Hpc; reflexivity
+      | unfold goto in Hstep; inversion Hstep; subst;
+        eapply case_mex_item with (x := x); try assumption; try reflexivity; try (rewrite Hpc; reflexivity);
+        [ apply (inv_w_all s Hinv t x Hlt); right; rewrite Hit; now left
+        | exact (proj1 (inv_w_thr s Hinv t Hlt))
+        | exact (inv_w_cobj s Hinv t Hlt)
+        | simpl; intros o [X | X];
+          [ exact (inv_w_all s Hinv t o Hlt (or_introl X))
+          | apply (inv_w_all s Hinv t o Hlt); right; rewrite Hit; now right ]
+        | simpl; apply exc_none; try assumption; rewrite Hpc; discriminate
+        | unfold mov_of; rewrite Hpc; reflexivity ] ]
+    | do_goto s Hinv t Hlt Hpc Hstep ]
+  | _ = SL383 => inversion Hstep; subst; apply case_finish_none; try assumption; try (rewrite Hpc; reflexivity);
+                 unfold mov_of; rewrite Hpc; reflexivity
+  | _ = L276 => unfold goto in Hstep; inversion Hstep; subst; now apply case_L276
+  | _ = L279 =>
+    destruct (L279_no_error s t Hinv Hlt Hpc) as (r & Er & Nr); rewrite Er in Hstep;
+    destruct r as [pos | b];
+    [ pose proof (iter_next_lt _ _ _ _ Er) as Hlen;
+      destruct (nth_error (s_weak s) pos) as [[k o] |] eqn:Hnth;
+      [ unfold goto in Hstep; inversion Hstep; subst; eapply case_L279_item; eauto
+      | exfalso; apply (nth_error_lt_some _ _ _ Hlen Hnth) ]
+    | destruct b; [congruence |]; unfold goto in Hstep; inversion Hstep; subst; now apply case_L279_end ]
+  | _ = L280 =>
+    destruct (iter_parts s t Hinv Hlt) as (_ & _ & _ & _ & I5 & _); specialize (I5 Hpc);
+    destruct (t_cobj (s_thr s t)) as [o |] eqn:Co; [| congruence];
+    unfold goto in Hstep; inversion Hstep; subst; now apply case_L280
+  | _ = L280n => unfold goto in Hstep; inversion Hstep; subst; now apply case_L280n
+  | _ = L281 =>
+    destruct (iter_parts s t Hinv Hlt) as (_ & _ & _ & _ & _ & I6); specialize (I6 Hpc);
+    destruct (t_val (s_thr s t)) as [o |] eqn:V; [| congruence];
+    unfold goto in Hstep; inversion Hstep; subst; now apply case_L281
+  | _ = L283 =>
+    assert (X : t_exc (s_thr s t) = None) by (apply exc_none; try assumption; rewrite Hpc; discriminate);
+    rewrite X in Hstep; unfold release in Hstep;
+    assert (L : s_lock s = Some t) by (apply (inv_lock s Hinv t Hlt); rewrite Hpc; reflexivity);
+    rewrite L in Hstep; inversion Hstep; subst;
+    apply inv_goto_lock; try assumption;
+    [ apply lc_release; [rewrite Hpc; reflexivity | reflexivity | reflexivity] | goto_side s Hinv t Hlt Hpc .. ]
+  | _ = L282 =>
+    unfold mex_next in Hstep; simpl in Hstep; destruct (t_all (s_thr s t)) as [| x r] eqn:Hal;
+    [ inversion Hstep; subst;
+      change (Inv (put_thr s t (finish (s_thr s t) RNone)));
+      apply case_finish_none; try assumption; try (rewrite Hpc; reflexivity); unfold mov_of; rewrite Hpc; reflexivity
+    | unfold goto in Hstep; inversion Hstep; subst;
+      eapply case_mex_item with (x := x); try assumption; try reflexivity; try (rewrite Hpc; reflexivity);
+      [ apply (inv_w_all s Hinv t x Hlt); left; rewrite Hal; now left
+      | simpl; intros y E; discriminate E
+      | simpl; intros y E; discriminate E
+      | simpl; rewrite Hal; intros o [X | X];
+        [ apply (inv_w_all s Hinv t o Hlt); left; rewrite Hal; exact X
+        | apply (inv_w_all s Hinv t o Hlt); left; rewrite Hal; now right ]
+      | simpl; apply exc_none; try assumption; rewrite Hpc; discriminate
+      | unfold mov_of; rewrite Hpc; reflexivity ] ]
   end.
 Qed.
